@@ -579,8 +579,10 @@ public:
      */
     void emit(Args... p) const
     {
-        if (m_impl)
-            m_impl->emit(p...);
+        // Keep the implementation alive for the duration of the emission:
+        // a slot may call disconnectAll() or move-assign this signal, which resets m_impl.
+        if (const auto impl = m_impl)
+            impl->emit(p...);
 
         // if m_impl is nullptr, we don't have any slots connected, don't bother emitting
     }
